@@ -181,7 +181,8 @@ func VariantBytes(t *rapid.T) []byte {
 	if flags&0x40 != 0 {
 		switch rapid.IntRange(0, 6).Draw(t, "hvdims") {
 		case 6: // very many dimensions of size 1 (the product stays the array length)
-			k := rapid.SampledFrom([]int{40, 300, 4000, 12000}).Draw(t, "hvdones")
+			// (62, 63, 64: around ua.MaxVariantArrayDimensions)
+			k := rapid.SampledFrom([]int{40, 62, 63, 64, 300, 4000, 12000}).Draw(t, "hvdones")
 			b = append(b, u32(uint32(k+1))...)
 			b = append(b, u32(uint32(n))...)
 			for i := 0; i < k; i++ {
